@@ -158,12 +158,16 @@ def combos(tier):
     out.append((('hit', 'ctx', 'exc', 'redir'), 0))
     out.append((('hit', 'hit', '404', 'fall'), 0))
     if tier == 'thorough':
-        for pair in itertools.combinations_with_replacement(KINDS, 2):
+        for pair in B2_PAIRS:
             out.append((pair, 2))
     return out
 
 
-B2_SPLIT = 8     # bound-2 exploration of one pair is split over this many work items (by first preemption point)
+# pairs explored under every schedule with <= 2 preemptions in the thorough tier (about n*n/2 executions each)
+B2_PAIRS = [('hit', 'hit'), ('hit', 'ctx'), ('hit', '404'), ('fall', 'exc'), ('redir', '405'), ('q405', 'qpost')]
+
+
+B2_SPLIT = 64     # bound-2 exploration of one pair is split over this many work items (by first preemption point)
 
 
 def work_items(tier):
@@ -239,10 +243,15 @@ def explore_combo(acc, w, kinds, bound, part):
     del w.guids[:]
     gc.disable()
     try:
-        st = sched.explore(bodies, bound, on_exec, first_choices=first_choices)
+        st = sched.explore(bodies, bound, on_exec, first_choices=first_choices, should_stop=deadline_passed)
     finally:
         gc.enable()
     acc.outcome('%s|bound%d' % (label if len(kinds) > 2 else 'pair', bound), st['executions'])
+    if st['capped']:
+        acc.extra['cap_hit'] = 1
+        acc.extra.setdefault('capped_items', []).append('%s bound %d part %s' % (label, bound, part))
+    else:
+        acc.extra.setdefault('completed_items', []).append('%s bound %d part %s' % (label, bound, part))
     acc.add('schedules', st['executions'])
     return st
 
@@ -265,7 +274,8 @@ def shard(tier, i, n, seed):
             continue
         if deadline_passed():
             acc.extra['cap_hit'] = 1
-            break
+            acc.extra.setdefault('skipped_items', []).append('%s bound %d part %s' % ('+'.join(kinds), bound, part))
+            continue
         try:
             st = explore_combo(acc, w, kinds, bound, part)
         except (sched.Divergence, sched.Hang) as e:
@@ -318,10 +328,12 @@ def finish(tier, merged, results):
     if not merged['violations'] and merged['extra'].get('nontrivial', 0) < 100:
         raise common.InternalError('vacuous: too few non-trivial schedules')
     return {'bounds': {'request_kinds': KINDS, 'pairs': 'all %d unordered pairs' % (len(KINDS) * (len(KINDS) + 1) // 2),
-                       'pair_preemption_bound': 1 if tier == 'quick' else 2, 'triples': 5, 'triple_preemption_bound': 1,
+                       'pair_preemption_bound': 1, 'pairs_at_preemption_bound_2': [] if tier == 'quick' else ['+'.join(p) for p in B2_PAIRS], 'triples': 5, 'triple_preemption_bound': 1,
                        'quadruples': 2, 'quadruple_preemption_bound': 0, 'granularity': 'bytecode instruction'},
             'distinct_nontrivial': merged['extra'].get('nontrivial', 0),
             'coverage': {'schedules': merged['extra'].get('schedules', 0),
+                         'work_items_completed': len(merged['extra'].get('completed_items', [])),
+                         'work_items_capped_or_skipped': sorted(merged['extra'].get('capped_items', []) + merged['extra'].get('skipped_items', []))[:80],
                          'supplementary_free_running': {'requests': sum(merged['extra'].get('free_running_requests') or [0]),
                                                         'mismatches': sum(merged['extra'].get('free_running_mismatches') or [0]),
                                                         'note': 'sampling, diagnostic only, never a verdict'},
